@@ -354,7 +354,7 @@ MODULES = {
     'C02': ['C02', 'C02Site'],
     'C03': ['C03', 'C03Wrappers'],
     'C07': ['C07', 'C07Parse'],
-    'C09': ['C09', 'C09Rx'],
+    'C09': ['C09', 'C09Rx', 'C09Compile'],
     'C10': ['C10', 'C10Rx'],
     'C13': ['C13', 'C13Rx'],
     'C17': ['C17', 'C17Dir'],
@@ -367,7 +367,7 @@ AUDITS = {
     'C02': ['C02', 'C02Site'],
     'C03': ['C03', 'C03Wrappers'],
     'C07': ['C07', 'C07Parse'],
-    'C09': ['C09', 'C09Rx'],
+    'C09': ['C09', 'C09Rx', 'C09Compile'],
     'C10': ['C10', 'C10Rx'],
     'C13': ['C13', 'C13Rx'],
     'C17': ['C17', 'C17Dir'],
